@@ -6,8 +6,8 @@ namespace ScVerif.C20.FanSpeed
 open ScVerif.Line
 open ScVerif.C20.Vending (parseRat? showRat)
 
-def decStr (s : String) : String := if s = "~" then "" else s
-def encStr (s : String) : String := if s = "" then "~" else s
+def decStr (s : String) : String := if s = "~" then "" else unesc s
+def encStr (s : String) : String := if s = "" then "~" else esc s
 
 def parsePresets? (s : String) : Option (List Preset) :=
   if s = "-" then some []
